@@ -101,11 +101,11 @@ def fault_sites(d, machine):
                 for f in ("constant", "coefficients"):
                     sites.append(([k, i, f], "delete"))
                     for w in WRONG:
-                        if (f == "constant" and w in ("int", "bool")) or (f == "coefficients" and w == "dict"):
+                        if (f == "constant" and w == "int") or (f == "coefficients" and w == "dict"):
                             continue
                         sites.append(([k, i, f], w))
                 for var in item["coefficients"]:
-                    for w in ("none", "str", "list", "dict"):
+                    for w in ("none", "str", "list", "dict", "bool"):
                         sites.append(([k, i, "coefficients", var], w))
     return sites
 
@@ -133,7 +133,8 @@ def jobs(tier, seed):
         mod = importlib.import_module(f"pv.props.{prop}")
         js = mod.jobs("quick" if tier == "quick" else "thorough", seed)
         rng.shuffle(js)
-        for j in js[:per]:
+        n_take = per * (4 if prop == "C04" else 1)  # elimination shapes are cheap and reach most raise sites
+        for j in js[:n_take]:
             out.append({"kind": "census:" + prop, "prop": prop, "job": j})
     # adversarial shapes
     adv = []
@@ -144,6 +145,15 @@ def jobs(tier, seed):
         adv.append({"op": op, "c1": {"in": ["x"], "out": ["y"], "a": [{"x": 1}], "g": [{"y": 1}]}, "c2": {"in": ["y"], "out": ["z"], "a": [{"y": -1}], "g": [{"z": 1}]}})
         adv.append({"op": op, "c1": {"in": ["x"], "out": ["y"], "a": [{"x": 1}, {"x": -1}], "g": [{"y": 1, "x": -1}, {"y": -1, "x": 1}, {"y": 1, "x": -1}]}, "c2": {"in": ["y", "x"], "out": ["z"], "a": [{"y": 1, "x": -1}], "g": [{"z": 1, "y": -1, "x": 1}]}})
         adv.append({"op": op, "c1": {"in": ["x", "u"], "out": ["y", "w"], "a": [], "g": [{"y": 1, "w": 1, "x": -1}]}, "c2": {"in": ["y", "w"], "out": ["z"], "a": [{"y": 1}], "g": [{"z": 1, "y": -1, "w": -1}]}})
+    # chains of two-variable context rows that dead-end (every tactic must decline, none may crash)
+    for depth in (2, 3):
+        for sg in (1, -1):
+            ev = ["y1", "y2", "y3", "y4"][: depth + 1]
+            rows = [{ev[i]: sg, ev[i + 1]: -sg} for i in range(depth)]
+            c1 = {"in": ["x"], "out": ev, "a": [], "g": rows}
+            c2 = {"in": ev[:1], "out": ["z"], "a": [{ev[0]: sg}], "g": [{"z": 1, ev[0]: -1}]}
+            for op in ("compose", "elim-refine", "elim-relax", "quotient"):
+                adv.append({"op": op, "c1": c1, "c2": c2})
     for a in adv:
         for ti, tac in enumerate(([1, 2, 3, 4, 5], [5], [4], [3], [2, 1], [])):
             if a["op"] not in ("compose", "quotient", "elim-refine", "elim-relax") and ti > 0:
